@@ -619,6 +619,9 @@ fn run_inner(p: &[u64]) -> Option<(Vec<u64>, Vec<u64>)> {
                     }
                 }
             }
+            // the ids the consumer stage really uses: the loop's own peer id and the remote's
+            orc.add(9, &[], || super::tasks::local_peer().to_bytes().iter().map(|x| *x as u64).collect());
+            orc.add(10, &[], || super::consume::remote_peer().to_bytes().iter().map(|x| *x as u64).collect());
             orc.push(&mut case);
             let before = Instant::now();
             let (msg, peak) = measure(|| KademliaMessage::from_bytes(BytesMut::from(&b[..]), k as usize));
@@ -632,6 +635,14 @@ fn run_inner(p: &[u64]) -> Option<(Vec<u64>, Vec<u64>)> {
             }
             let (cap, d) = dump_kad(&msg, before);
             body.extend(d);
+            // consumer stage: the real Kademlia loop receives the very bytes (k >= 1: a loop with
+            // replication factor 0 is not a configuration the property speaks about)
+            if k >= 1 {
+                match super::consume::stage(super::consume::STAGE_KAD, || super::consume::kademlia(k as usize, &b)) {
+                    Ok(d) => body.extend(d),
+                    Err(st) => return Some((case, vec![super::consume::CONSUMER_PANIC, st])),
+                }
+            }
             Some((case, hdr(peak, alloc_bound_kad(k, b.len()), cap, body)))
         }
         2 => {
@@ -698,7 +709,16 @@ fn run_inner(p: &[u64]) -> Option<(Vec<u64>, Vec<u64>)> {
                 None => body.push(0),
             }
             match r {
-                Ok(RemotePublicKey::Ed25519(pk)) => eo(&mut body, Some(&pk.to_bytes())),
+                Ok(rk @ RemotePublicKey::Ed25519(_)) => {
+                    #[allow(irrefutable_let_patterns)]
+                    let pk = if let RemotePublicKey::Ed25519(pk) = &rk { pk.to_bytes() } else { unreachable!() };
+                    eo(&mut body, Some(&pk));
+                    // consumer stage: the peer id of the key and its conversions
+                    match super::consume::stage(super::consume::STAGE_NOISE, || super::consume::peer_id_conversions(rk.to_peer_id(&b))) {
+                        Ok(m) => el(&mut body, &m),
+                        Err(st) => return Some((case, vec![super::consume::CONSUMER_PANIC, st])),
+                    }
+                }
                 #[allow(unreachable_patterns)]
                 Ok(_) => body.push(2),
                 Err(_) => body.push(0),
@@ -740,7 +760,16 @@ fn run_inner(p: &[u64]) -> Option<(Vec<u64>, Vec<u64>)> {
             if key_ok {
                 let k = raw.as_ref().and_then(|m| m.identity_key.clone()).unwrap_or_default();
                 match RemotePublicKey::from_protobuf_encoding(&k) {
-                    Ok(RemotePublicKey::Ed25519(pk)) => eo(&mut body, Some(&pk.to_bytes())),
+                    Ok(rk @ RemotePublicKey::Ed25519(_)) => {
+                        #[allow(irrefutable_let_patterns)]
+                        let pk = if let RemotePublicKey::Ed25519(pk) = &rk { pk.to_bytes() } else { unreachable!() };
+                        eo(&mut body, Some(&pk));
+                        // consumer stage: the peer id parse_and_verify_peer_id derives, its conversions
+                        match super::consume::stage(super::consume::STAGE_NOISE, || super::consume::peer_id_conversions(rk.to_peer_id(&k))) {
+                            Ok(m) => el(&mut body, &m),
+                            Err(st) => return Some((case, vec![super::consume::CONSUMER_PANIC, st])),
+                        }
+                    }
                     _ => body.push(3),
                 }
             } else {
@@ -788,6 +817,14 @@ fn run_inner(p: &[u64]) -> Option<(Vec<u64>, Vec<u64>)> {
                     ell(&mut body, &info.protocols);
                     eo(&mut body, info.observed.as_deref());
                     ell(&mut body, &info.listen);
+                    // consumer stage: the addresses of the event go to the address book
+                    for a in info.listen.iter().chain(info.observed.iter()) {
+                        if let Ok(a) = Multiaddr::try_from(a.clone()) {
+                            if super::consume::stage(super::consume::STAGE_MADDR, || super::consume::maddr_consumers(&a)).is_err() {
+                                return Some((case, vec![super::consume::CONSUMER_PANIC, super::consume::STAGE_MADDR]));
+                            }
+                        }
+                    }
                 }
                 None => body.push(0),
             }
@@ -887,6 +924,11 @@ fn run_inner(p: &[u64]) -> Option<(Vec<u64>, Vec<u64>)> {
                 Ok(p) => {
                     let mut o = vec![1];
                     el(&mut o, &p.to_bytes());
+                    // consumer stage: every conversion into the multiaddr / multihash crates' types
+                    match super::consume::stage(super::consume::STAGE_PEER_ID, || super::consume::peer_id_conversions(p)) {
+                        Ok(m) => el(&mut o, &m),
+                        Err(st) => return Some((case, vec![super::consume::CONSUMER_PANIC, st])),
+                    }
                     o
                 }
                 Err(_) => vec![0],
@@ -902,7 +944,15 @@ fn run_inner(p: &[u64]) -> Option<(Vec<u64>, Vec<u64>)> {
             let mut orc = Orc::default();
             orc.add(1, &b, || r.clone());
             orc.push(&mut case);
-            Some((case, hdr(peak, alloc_bound(b.len()), 0, r)))
+            let mut body = r;
+            // consumer stage: what the address book, the transports and the routing table do with it
+            if let Ok(a) = Multiaddr::try_from(b.clone()) {
+                match super::consume::stage(super::consume::STAGE_MADDR, || super::consume::maddr_consumers(&a)) {
+                    Ok(d) => body.extend(d),
+                    Err(st) => return Some((case, vec![super::consume::CONSUMER_PANIC, st])),
+                }
+            }
+            Some((case, hdr(peak, alloc_bound(b.len()), 0, body)))
         }
         17 => {
             let b = cur.bytes()?;
